@@ -1048,7 +1048,7 @@ class FDE:
             raise Unsupported('field %s of %r (%s) not modelled' % (attr, base, base.cls))
         if isinstance(base, ObjDict) and attr in ('update', 'copy', 'get', 'pop', 'setdefault', 'items', 'keys', 'values'):
             return ('objdictmethod', base, attr)
-        if isinstance(base, dict) and attr in ('get', 'items', 'keys', 'values', 'pop', 'update', 'setdefault'):
+        if isinstance(base, dict) and attr in ('get', 'items', 'keys', 'values', 'pop', 'update', 'setdefault', 'clear', 'copy', 'popitem'):
             return ('dictmethod', base, attr)
         if isinstance(base, (dict, list, tuple, set, str)) and not (isinstance(base, tuple) and base and isinstance(base[0], str) and base[0] in ('class', 'ext', 'kind', 'closure', 'unbound', 'partial')) \
                 and attr in ('__contains__', '__getitem__', '__len__'):
@@ -1236,6 +1236,8 @@ class FDE:
                     return ('partial', ('unbound', t), (('class', base[1]),), {})       # C.factory: the class is the first argument
                 if t is not None:
                     return ('unbound', t)
+                if base[1] + '.' + e.attr in self.repo.classes:
+                    return ('class', base[1] + '.' + e.attr)        # a class nested in a class (EvalContext.PartialChild)
                 raise Unsupported('class member %s.%s' % (base[1], e.attr))
             if isinstance(base, tuple) and base and base[0] == 'classayns':
                 t = self.repo.resolve(base[1], e.attr, ayns=True)
@@ -1767,6 +1769,11 @@ class FDE:
             g_ = lambda o: self._attr(o, a_, fi)  # noqa: E731
             g_._fde_ok = True
             return g_
+        if unparse(f) in ('operator.attrgetter', 'attrgetter') and len(args) > 1 and not kwargs and all(isinstance(a, str) and '.' not in a for a in args):
+            names_ = tuple(args)
+            g_ = lambda o: tuple(self._attr(o, a_, fi) for a_ in names_)  # noqa: E731      (several names: the tuple of the attributes)
+            g_._fde_ok = True
+            return g_
         if unparse(f) in ('itertools.takewhile', 'takewhile', 'itertools.dropwhile', 'dropwhile', 'filter', 'map', 'itertools.filterfalse', 'filterfalse') and len(args) == 2 \
                 and (isinstance(args[1], (list, tuple, dict)) or type(args[1]).__name__ in _ITER_TYPES or (type(args[1]).__name__ == 'count' and unparse(f).endswith('takewhile'))) \
                 and not (isinstance(f, ast.Name) and f.id in env):
@@ -2173,6 +2180,16 @@ class FDE:
                     return list(d.keys())
                 if m == 'values':
                     return list(d.values())
+                if m == 'clear':
+                    d.clear()
+                    return None
+                if m == 'copy':
+                    return dict(d)
+                if m == 'popitem':
+                    try:
+                        return d.popitem()
+                    except KeyError:
+                        raise Raised('KeyError')
             if isinstance(target, tuple) and target and target[0] == 'noop':
                 return None
             import types as _types
